@@ -1,157 +1,55 @@
-(* Proofs.ExprSmall — C02_partial_small: the full conclusion for `target := e` when e is a single
-   operand (any variable — also the target itself — or a 32-bit literal) or one operation + - * / %
-   of two variables, EITHER OF WHICH MAY BE THE TARGET (operands are read before the statement). *)
+(* Proofs.ExprSmall — C02_partial_literal: the full conclusion for `target <form>= literal`, any
+   32-bit literal (negative ones are written `- n`), all six assignment forms. *)
 From Coq Require Import ZArith String List Bool Lia Ascii.
 From JMCV Require Import Base.Int32 Base.Dec MC.Syntax MC.Sem MC.Facts Model.Names Model.VarOp Proofs.VarOp
      Model.Expr Model.ExprSpec Model.ExprFront Model.ExprBack
-     Proofs.ExprLower Proofs.ExprParse Proofs.ExprOps Proofs.ExprClean.
+     Proofs.ExprLower Proofs.ExprParse Proofs.ExprOps Proofs.ExprOpt Proofs.ExprClean.
 Import ListNotations.
 Open Scope Z_scope.
-
-Definition small (e : expr) : bool :=
-  match e with
-  | EVar _ => true
-  | EConst z => in_int32b z
-  | EBin o (EVar _) (EVar _) => arith_op o
-  | _ => false
-  end.
-
-(* the pipeline in front of and behind tree_to_operations, for paren-normal expressions and
-   constant-free operation lists *)
-Lemma pipe_pn nm out e ops :
-  pn e = true ->
-  tree_to_operations nm (tree_of nm e) out PEmpty = (Ok ops, []) ->
-  forallb var_op ops = true ->
-  compile_expr nm out PEmpty e = (Ok (map cmd_of ops, []), []).
-Proof.
-  intros Hpn Hops Hvo. unfold compile_expr, compile_assign.
-  destruct (render e) as [|t0 tr0] eqn:Er; [exfalso; now apply (render_nonempty e Hpn)|]. rewrite <- Er.
-  unfold iop_premerge. cbn [opc_eqb]. rewrite bind_ret_l.
-  rewrite (ttt_pn nm e Hpn), bind_ok_nil. rewrite (ett_pn nm e Hpn), bind_ok_nil.
-  rewrite Hops, bind_ok_nil. rewrite (optimize_const_free ops (var_op_const_free ops Hvo)), bind_ok_nil.
-  now apply lower_vars.
-Qed.
-
-Lemma run_vars ft env nm ops st :
-  forallb var_op ops = true ->
-  (forall o, In o ops -> snd (o_var o) <> int_name nm) ->
-  exists st', exec_list ft env 1 (map cmd_of ops) st = Some st' /\
-    (forall k, rdf st' k = interp_ops ops (rdf st) k) /\ stg st' = stg st /\ tr st' = tr st.
-Proof.
-  intros Hvo Hob.
-  destruct (lower_correct_gen ft env nm ops (map cmd_of ops) [] [] st [] (lower_vars nm ops Hvo) Hob)
-    as (st' & E & P & _ & S & T).
-  - intros z [].
-  - intros z [].
-  - exists st'. auto.
-Qed.
-
-Lemma compile_const nm out z :
-  in_int32b z = true -> compile_expr nm out PEmpty (EConst z) = (Ok ([CSet out z], []), []).
-Proof.
-  intros Hz. pose proof (proj1 (in_int32b_spec z) Hz) as [Hlo Hhi]. unfold INT_MIN, INT_MAX in *.
-  assert (Hf : (FLOAT_EXACT <? Z.abs z) = false) by (apply Z.ltb_ge; unfold FLOAT_EXACT; lia).
-  unfold compile_expr, compile_assign. cbn [render].
-  destruct (z <? 0) eqn:Ez.
-  - apply Z.ltb_lt in Ez. assert (Hnz : (- z =? 0) = false) by (apply Z.eqb_neq; lia).
-    cbn -[Z.opp in_int32b FLOAT_EXACT Z.abs]. rewrite Hnz.
-    cbn -[Z.opp in_int32b FLOAT_EXACT Z.abs]. rewrite Z.opp_involutive, Hf, Hz. reflexivity.
-  - cbn -[in_int32b FLOAT_EXACT Z.abs]. rewrite Hf, Hz. reflexivity.
-Qed.
-
-Ltac sdec :=
-  repeat match goal with
-         | |- context [score_eqb ?a ?a] => rewrite (score_eqb_refl a)
-         | |- context [score_eqb ?a ?b] => rewrite (score_eqb_neq a b) by congruence
-         end.
 
 Section Small.
   Variable ft : string -> option (list cmd).
   Variable env : nat -> state -> state.
 
-  Theorem partial_small nm target e st :
+  (* a 32-bit literal as the whole right side, for all six forms *)
+  Theorem partial_literal nm target form z :
     let out := score_of nm target in
-    small e = true ->
-    (forall n, out <> temp_score nm n) ->
-    (forall s n, In s (evars nm e) -> s <> temp_score nm n) ->
+    in_int32b z = true -> form <> PPow ->
     snd out <> int_name nm -> var_name nm <> int_name nm ->
-    exists cmds,
-      compile_expr nm out PEmpty e = (Ok (cmds, []), []) /\
-      forallb wf_cmd cmds = true /\
-      exists st', exec_list ft env 1 cmds st = Some st' /\
-        (forall v, eval nm (rd (sc st)) e = Some v -> rd (sc st') out = v) /\
-        (forall s, s <> out -> (forall n, s <> temp_score nm n) -> rd (sc st') s = rd (sc st) s) /\
-        stg st' = stg st /\ tr st' = tr st.
+    exists cmds ints,
+      compile_expr nm out form (EConst z) = (Ok (cmds, ints), []) /\
+      forallb wf_cmd cmds && forallb wf_cmd (load_ints nm ints) = true /\
+      forall st all, int32_state st -> loaded nm st all -> (forall z, In z ints -> In z all) ->
+        exists st', exec_list ft env 1 cmds st = Some st' /\
+          (forall w, form_sem form (rd (sc st) out) z = Some w -> rd (sc st') out = w) /\
+          (forall s, s <> out -> rd (sc st') s = rd (sc st) s) /\
+          stg st' = stg st /\ tr st' = tr st.
   Proof.
-    intros out Hs Hout Hev Hobj Hnames.
-    destruct e as [v|z|e'|e'|o a b]; try discriminate.
-    - (* a variable, possibly the target itself *)
-      set (s := score_of nm v). set (ops := [(out, PEmpty, CVar s)]).
-      exists (map cmd_of ops). split; [apply pipe_pn; reflexivity|]. split; [reflexivity|].
-      destruct (run_vars ft env nm ops st eq_refl) as (st' & E & P & S & T).
-      { intros o [<-|[]]. exact Hobj. }
-      exists st'. split; [exact E|]. split; [|split; [|split; assumption]].
-      + intros x Hx. cbn in Hx. injection Hx as <-. fold (rdf st') (rdf st). rewrite P.
-        unfold ops, interp_ops. cbn [fold_left]. rewrite interp_one_same. reflexivity.
-      + intros s' Hs' _. fold (rdf st') (rdf st). rewrite P. unfold ops, interp_ops. cbn [fold_left].
-        apply interp_one_other. cbn. congruence.
-    - (* a literal *)
-      cbn [small] in Hs. exists [CSet out z]. split; [now apply compile_const|].
-      split; [cbn; now rewrite Hs|].
-      exists (set_sc st out z). split; [reflexivity|]. split; [|split; [|split; reflexivity]].
-      + intros x Hx. cbn in Hx. injection Hx as <-. unfold set_sc; cbn [sc]. apply rd_upd_same.
-      + intros s Hs' _. unfold set_sc; cbn [sc]. apply rd_upd_other. congruence.
-    - (* one operation of two variables *)
-      destruct a as [v1| | | |]; try discriminate. destruct b as [v2| | | |]; try discriminate.
-      cbn [small] in Hs.
-      set (s1 := score_of nm v1) in *. set (s2 := score_of nm v2) in *.
-      assert (Hpn : pn (EBin o (EVar v1) (EVar v2)) = true) by (unfold pn; cbn; now rewrite Hs).
-      assert (Ht1 : forall n, s1 <> temp_score nm n) by (intros n; apply Hev; cbn; auto).
-      assert (Ht2 : forall n, s2 <> temp_score nm n) by (intros n; apply Hev; cbn; auto).
-      assert (Hval : forall f x, eval nm f (EBin o (EVar v1) (EVar v2)) = Some x ->
-                                 op_sem (opc_of o) (f s1) (f s2) = x).
-      { intros f x Hx. cbn in Hx. now apply binop_op_sem. }
-      assert (Htree : tree_of nm (EBin o (EVar v1) (EVar v2)) = NExpr (opc_of o) (opc_of o) (NVar s1) (NVar s2)).
-      { cbn [tree_of]. fold s1 s2. destruct o; reflexivity. }
-      assert (Hsem : forall ops,
-                 tree_to_operations nm (NExpr (opc_of o) (opc_of o) (NVar s1) (NVar s2)) out PEmpty = (Ok ops, []) ->
-                 forallb var_op ops = true ->
-                 (forall x, In x ops -> snd (o_var x) <> int_name nm) ->
-                 (forall f, interp_ops ops f out = op_sem (opc_of o) (f s1) (f s2)) ->
-                 (forall f s, s <> out -> (forall n, s <> temp_score nm n) -> interp_ops ops f s = f s) ->
-                 exists cmds,
-                   compile_expr nm out PEmpty (EBin o (EVar v1) (EVar v2)) = (Ok (cmds, []), []) /\
-                   forallb wf_cmd cmds = true /\
-                   exists st', exec_list ft env 1 cmds st = Some st' /\
-                     (forall v, eval nm (rd (sc st)) (EBin o (EVar v1) (EVar v2)) = Some v -> rd (sc st') out = v) /\
-                     (forall s, s <> out -> (forall n, s <> temp_score nm n) -> rd (sc st') s = rd (sc st) s) /\
-                     stg st' = stg st /\ tr st' = tr st).
-      { intros ops Hops Hvo Hob Hv Hf.
-        exists (map cmd_of ops). split; [apply pipe_pn; [exact Hpn|now rewrite Htree|exact Hvo]|].
-        split; [apply wf_cmd_of|].
-        destruct (run_vars ft env nm ops st Hvo Hob) as (st' & E & P & S & T).
-        exists st'. split; [exact E|]. split; [|split; [|split; assumption]].
-        - intros x Hx. fold (rdf st') (rdf st). rewrite P, Hv. now apply Hval.
-        - intros s Hs1 Hs2. fold (rdf st') (rdf st). rewrite P. now apply Hf. }
-      assert (Hobj_t : forall n, snd (temp_score nm n) <> int_name nm) by (intros n; exact Hnames).
-      assert (Nto : forall n, temp_score nm n <> out) by (intros n E; now apply (Hout n)).
-      assert (Nt1 : forall n, temp_score nm n <> s1) by (intros n E; now apply (Ht1 n)).
-      assert (Nt2 : forall n, temp_score nm n <> s2) by (intros n E; now apply (Ht2 n)).
-      destruct (score_eqb s1 out) eqn:E1, (score_eqb s2 out) eqn:E2;
-        destruct o; try discriminate Hs;
-        (eapply Hsem;
-         [ unfold tree_to_operations, search_for_output;
-           repeat (cbn -[score_eqb temp_score]; rewrite ?E1, ?E2); reflexivity
-         | reflexivity
-         | intros x Hx; cbn in Hx;
-           repeat (destruct Hx as [<-|Hx]; [first [exact Hobj | apply Hobj_t]|]); destruct Hx
-         | intros f;
-           try (destruct (score_eqb_spec s1 out) as [->|N1]; [|try discriminate]);
-           try (destruct (score_eqb_spec s2 out) as [->|N2]; [|try discriminate]);
-           unfold interp_ops; cbn [fold_left]; unfold interp_one; cbn [o_var o_op o_num fst snd numval opc_of];
-           sdec; cbn [op_sem]; try reflexivity; try (f_equal; lia)
-         | intros f s Hs1 Hs2;
-           unfold interp_ops; cbn [fold_left]; unfold interp_one; cbn [o_var o_op o_num fst snd numval];
-           pose proof (Hs2 0%nat); sdec; reflexivity ]).
+    intros out Hz Hform Hobj Hnames.
+    set (ops := [(out, form, CConst z)]).
+    assert (G : good_ops nm out ops).
+    { split; [|split]; intros x [<-|[]]; [exact Hform|now apply in_int32b_spec|now left]. }
+    assert (Vout : forall f, interp_ops ops f out = op_sem form (f out) z).
+    { intros f. unfold ops. cbn [interp_ops fold_left]. now rewrite interp_one_same'. }
+    assert (Vfr : forall f s, s <> out -> interp_ops ops f s = f s).
+    { intros f s Hs. unfold ops. cbn [interp_ops fold_left]. apply interp_one_other. cbn. congruence. }
+    destruct (assemble ft env nm out form (fun _ => z) ops G Vout (fun f s Hs _ => Vfr f s Hs) Hobj Hnames)
+      as (cmds & ints & El & Wf & Run).
+    exists cmds, ints. split; [|split; [exact Wf|]].
+    - unfold compile_expr, compile_assign. cbn [render]. destruct (z <? 0) eqn:Ez.
+      + cbn -[Z.opp lower optimize_const]. rewrite Z.opp_involutive. unfold ops in El.
+        destruct (lower nm (optimize_const [(out, form, CConst z)])). exact El.
+      + cbn -[lower optimize_const]. unfold ops in El.
+        destruct (lower nm (optimize_const [(out, form, CConst z)])). exact El.
+    - intros st all Hst Hl Hsub.
+      (* the frame: `assemble` states it for scores that are not temporaries; none is written here *)
+      destruct (optimize_const_correct ops (proj1 (proj2 G))) as (Eq & C' & S').
+      assert (Hvar' : forall x, In x (optimize_const ops) -> snd (o_var x) <> int_name nm).
+      { intros y Hy. destruct (S' y Hy) as (x & [<-|[]] & Es). injection Es as Ev _. rewrite <- Ev. exact Hobj. }
+      destruct (lower_correct_gen ft env nm _ cmds ints [] st all El Hvar' Hl Hsub) as (st' & E & P & _ & S & T).
+      exists st'. split; [exact E|]. pose proof (int32_state_R32 st Hst) as HR.
+      split; [|split; [|split; assumption]].
+      + intros w Hw. fold (rdf st') (rdf st). rewrite P, (Eq _ HR), Vout. now apply form_op_sem.
+      + intros s Hs. fold (rdf st') (rdf st). rewrite P, (Eq _ HR). now apply Vfr.
   Qed.
 End Small.
